@@ -357,21 +357,21 @@ class Sym(Interp):
             return [T(self.h_subscript(t, ("const", i), n, None, ctx)) for i in range(k)]
         return [T(self.h_subscript(t, ("const", i), n, None, ctx)) for i in range(k)]
 
-    def _comp_as_loops(self, n, env, ctx):
+    def _comp_as_loops(self, n, env, ctx, kind="list"):
         """[elt for a in A for b in B if c] executed as the loops it abbreviates (tmp = []; for a in A: for b in B: if c: tmp.append(elt)):
         rules written for the loop form read the comprehension form through this (Sym.desugar, off by default)"""
         tmp = "_comp_%d_%d" % (n.lineno, n.col_offset)
 
         def at(node, ref):
             return ast.fix_missing_locations(ast.copy_location(node, ref))
-        body = at(ast.Expr(ast.Call(ast.Attribute(ast.Name(tmp, ast.Load()), "append", ast.Load()), [n.elt], [])), n.elt)
+        body = at(ast.Expr(ast.Call(ast.Attribute(ast.Name(tmp, ast.Load()), "append" if kind == "list" else "add", ast.Load()), [n.elt], [])), n.elt)
         for k in range(len(n.generators) - 1, -1, -1):
             g = n.generators[k]
             for c in reversed(g.ifs):
                 body = at(ast.If(c, [body], []), c)
             body = at(ast.For(g.target, g.iter, [body], [], None), g.iter)
             body._frac = 0.001 * k
-        first = at(ast.Assign([ast.Name(tmp, ast.Store())], ast.List([], ast.Load())), n)
+        first = at(ast.Assign([ast.Name(tmp, ast.Store())], ast.List([], ast.Load()) if kind == "list" else ast.Call(ast.Name("set", ast.Load()), [], [])), n)
         tnames = {x.id for g in n.generators for x in ast.walk(g.target) if isinstance(x, ast.Name)}
         saved = {k: env[k] for k in tnames if k in env}
         out = self.exec_block([first, body], env, ctx)
@@ -388,8 +388,8 @@ class Sym(Interp):
         return val
 
     def _comp(self, n, env, ctx, kind):
-        if getattr(self, "desugar", False) and kind == "list" and "$outer" not in env and (self.desugar == "all" or len(n.generators) > 1 or any(g.ifs for g in n.generators)):
-            return self._comp_as_loops(n, env, ctx)
+        if getattr(self, "desugar", False) and kind in ("list", "set") and "$outer" not in env and (self.desugar == "all" or len(n.generators) > 1 or any(g.ifs for g in n.generators)):
+            return self._comp_as_loops(n, env, ctx, kind)
         e = {"$outer": env}
         for k, v in env.items():
             if k.startswith("$") and k != "$outer":
